@@ -22,7 +22,9 @@ Next == UNCHANGED <<hi, lo>>
 
 \* a filler byte before and after, so that the escape is neither first nor last in the literal
 SLit == <<34, 120>> \o Esc(hi) \o (IF lo >= 0 THEN Esc(lo) ELSE <<>>) \o <<121, 34>>
-Case == LET x == SLit r == ParseText(x) IN
+\* (bound variables force one evaluation of the text and of its parse; LET definitions are re-evaluated at each use)
+CaseOf(x, r) ==
   [t |-> x, ok |-> r.ok, why |-> r.why, at |-> r.i - 1, scope |-> FaultScope(x, r.why), v |-> r.v]
-Emit == CSVWrite("%1$s", <<ToJson(Case)>>, IOEnv.OUT)
+Case == CaseOf(SLit, ParseText(SLit))
+Emit == \A x \in {SLit} : \A r \in {ParseText(x)} : CSVWrite("%1$s", <<ToJson(CaseOf(x, r))>>, IOEnv.OUT)
 =============================================================================
